@@ -1,24 +1,66 @@
-(* C08 — Crash recovery.  The full statement ("a crash at any point never bricks the node") is
-   FALSE of the code: Commit makes its durable writes one store after the other and nothing rolls a
-   store back on start.  What holds (the C08_partial theorems), and the refutation for every other crash point
-   of every block (C08_refuted), over the version-vector model Crash.v. *)
+(* C08 — Crash recovery: a crash at any point never bricks or forks the node.
+   Statements about Crash.v: the durable writes of a Commit, in the order the verif hooks record on
+   every run, a crash keeping any prefix of them, and the start-up of the application, which brings
+   every store back to the height the meta store reports (ledger.RollbackTo / evm.RollbackTo in
+   NewRigoApp — the repair of the defect this property exposed: before it the stores were opened at
+   their own latest versions and C08_without_rollback_refuted was the truth about the code). *)
 From Rigo Require Import Base Crash.
 From stdpp Require Import list.
 Local Open Scope Z_scope.
 
-(* crash anywhere before the first durable write of Commit (inside BeginBlock, DeliverTx, EndBlock:
-   nothing is durable yet): the node reports the last committed block and replays the interrupted one *)
-Theorem C08_partial_before : forall v, recover (crash_after v 0) = Recovers v.
-Proof. exact crash_before_commit_recovers. Qed.
-Print Assumptions C08_partial_before.
+(* for EVERY block and EVERY crash point (k = number of version-bearing durable writes that
+   completed; k = 0 covers a crash inside BeginBlock, DeliverTx and EndBlock, where nothing is
+   durable yet): after the start the version checks of BeginBlock and Commit pass, and the node
+   reports the last fully committed block — or the interrupted one, when its block context had
+   already been written *)
+Theorem C08_holds : forall v k, start (crash_after v k) = Recovers (if (9 <=? k)%nat then v + 1 else v).
+Proof. exact start_recovers. Qed.
+Print Assumptions C08_holds.
 
-(* crash after the block context has been written: the node reports the interrupted block *)
-Theorem C08_partial_after : forall v, recover (crash_after v (length write_order)) = Recovers (v + 1).
-Proof. exact crash_after_commit_recovers. Qed.
-Print Assumptions C08_partial_after.
+(* contents, not only versions.  A store is the list of contents it saved; block h computes the new
+   content of every store from the contents of ALL stores at the previous version ([step], any
+   function that reads its argument pointwise).  A crash before the block context is written, then
+   a start: the disk is exactly what it was before the interrupted commit ... *)
+Theorem C08_start_undoes_partial_commit : forall (C : Type) (g : store -> C) (step : Z -> (store -> C) -> store -> C) d n k,
+  level d n -> (k < 9)%nat -> forall s, rollback (commit_prefix g step d k) s = d s.
+Proof. exact @rollback_undoes_partial_commit. Qed.
+Print Assumptions C08_start_undoes_partial_commit.
 
-(* every crash point strictly between the first ledger save and the block-context record, for every
-   block: on restart the replay of the interrupted block panics (version mismatch / height check) *)
-Theorem C08_refuted : forall v k, (0 < k < length write_order)%nat -> recovers (crash_after v k) = false.
-Proof. exact crash_inside_commit_bricks. Qed.
-Print Assumptions C08_refuted.
+(* ... a crash after it: the start keeps the completed commit *)
+Theorem C08_start_keeps_full_commit : forall (C : Type) (g : store -> C) (step : Z -> (store -> C) -> store -> C) d n k,
+  level d n -> (9 <= k)%nat -> forall s, rollback (commit_prefix g step d k) s = commit g step d s.
+Proof. exact @rollback_keeps_full_commit. Qed.
+Print Assumptions C08_start_keeps_full_commit.
+
+(* the height Info reports after the start is the number of completed commits *)
+Theorem C08_reported_height : forall (C : Type) (g : store -> C) (step : Z -> (store -> C) -> store -> C) d n k,
+  level d n ->
+  ver (rollback (commit_prefix g step d k)) SMetaCtx = Z.of_nat n + (if (9 <=? k)%nat then 1 else 0).
+Proof. exact @reported_height. Qed.
+Print Assumptions C08_reported_height.
+
+(* one block, any number of crashes in a row (crash, start, replay, crash again, ...) before its
+   commit completes: the resulting disk is the one a single uninterrupted commit writes *)
+Theorem C08_replay_succeeds : forall (C : Type) (g : store -> C) (step : Z -> (store -> C) -> store -> C),
+  step_ext step -> forall crashes d n,
+  level d n -> Forall (fun k => (k < 9)%nat) crashes ->
+  disk_eq (attempts g step d crashes) (commit g step d).
+Proof. exact @attempts_same_as_uncrashed. Qed.
+Print Assumptions C08_replay_succeeds.
+
+(* whole histories: whatever the crash points of whatever blocks, the node ends with exactly the
+   stores — hence exactly the application hashes from then on — of a node that executed the same
+   blocks and never crashed *)
+Theorem C08_history : forall (C : Type) (g : store -> C) (step : Z -> (store -> C) -> store -> C),
+  step_ext step -> forall blocks d n,
+  level d n -> Forall (Forall (fun k => (k < 9)%nat)) blocks ->
+  disk_eq (run g step d blocks) (uncrashed g step d (length blocks)).
+Proof. exact @run_same_as_uncrashed. Qed.
+Print Assumptions C08_history.
+
+(* the roll-back is needed: with stores opened at their own latest versions (the code before the
+   repair) every crash point strictly between the first ledger save and the block-context record,
+   of every block, makes the replay of the interrupted block panic (version mismatch / height check) *)
+Theorem C08_without_rollback_refuted : forall v k, (0 < k < length write_order)%nat -> recovers (crash_after v k) = false.
+Proof. exact crash_inside_commit_bricks_without_rollback. Qed.
+Print Assumptions C08_without_rollback_refuted.
